@@ -99,7 +99,7 @@ Definition C15_monotone_stmt : Prop :=
     within M s h -> within M (iterate k sched s) h.
 
 (** structured nx x ny maps of every size (nx, ny >= 1, no upper bound): the boundary is the border, every
-    inner point has its 4 lattice neighbours, every regular (affine) lattice is left unchanged by any number of
+    inner point k has exactly its 4 lattice neighbours k - 1, k + 1, k - (nx+1), k + (nx+1), every regular (affine) lattice is left unchanged by any number of
     sweeps with any fixed set, and it is the only such configuration with that border, and from any interior
     positions the sweeps converge to it (a regular boundary yields the regular lattice).  For all rational
     origins and steps. *)
@@ -109,7 +109,8 @@ Definition C15_lattice_stmt (size_ok : nat -> nat -> Prop) : Prop :=
     let cells := struct_cells nx ny in
     let n := struct_n nx ny in
     (forall k, k < n -> is_boundary quad_ct cells k = border nx ny k)
-    /\ (forall fixed jn, In jn (schedule quad_ct cells n fixed) -> length (snd jn) = 4)
+    /\ (forall fixed jn, In jn (schedule quad_ct cells n fixed) -> length (snd jn) = 4 /\
+          forall t, In t (snd jn) <-> (t + 1 = fst jn \/ t = fst jn + 1 \/ t + S nx = fst jn \/ t = fst jn + S nx))
     /\ (forall fixed iters o a b, eqv (iterate iters (schedule quad_ct cells n fixed) (lattice nx ny o a b)) (lattice nx ny o a b))
     /\ (forall o a b h, length h = n ->
           (forall jn, In jn (schedule quad_ct cells n []) -> harmonic_at h jn) ->
